@@ -1152,7 +1152,7 @@ class Processor:
                         " list.")
                     return
 
-                for eleidx, element in enumerate(data):
+                for eleidx, element in list(enumerate(data)):
                     next_translated_path = translated_path + "[{}]".format(
                         eleidx)
                     next_ancestry = ancestry + [(data, eleidx)]
@@ -1168,7 +1168,7 @@ class Processor:
                         yield node_coord
 
         elif isinstance(data, (set, CommentedSet)):
-            for ele in data:
+            for ele in list(data):
                 ele_val = ele.value if isinstance(ele, TaggedScalar) else ele
                 if ele_val == stripped_attrs:
                     self.logger.debug((
@@ -1274,7 +1274,7 @@ class Processor:
                         ancestry + [(data, intmin)], pathseg)
 
             elif isinstance(data, dict):
-                for key, val in data.items():
+                for key, val in list(data.items()):
                     if min_match <= str(key) <= max_match:
                         yield NodeCoords(
                             val, data, key,
@@ -1283,7 +1283,7 @@ class Processor:
                             ancestry + [(data, key)], pathseg)
 
             elif isinstance(data, (CommentedSet, set)):
-                for ele in data:
+                for ele in list(data):
                     if min_match <= str(ele) <= max_match:
                         yield NodeCoords(
                             ele, data, ele,
@@ -1355,7 +1355,7 @@ class Processor:
             .format(stripped_attrs))
 
         if isinstance(data, list):
-            for lstidx, ele in enumerate(data):
+            for lstidx, ele in list(enumerate(data)):
                 if (hasattr(ele, "anchor")
                         and stripped_attrs == ele.anchor.value):
                     yield NodeCoords(ele, data, lstidx, next_translated_path,
@@ -1389,7 +1389,7 @@ class Processor:
                                 next_ancestry, pathseg)
                             break
 
-            for key, val in data.items():
+            for key, val in list(data.items()):
                 next_ancestry = ancestry + [(data, key)]
                 if (hasattr(key, "anchor")
                         and stripped_attrs == key.anchor.value):
@@ -1402,7 +1402,7 @@ class Processor:
                         val, data, key, next_translated_path,
                         next_ancestry, pathseg)
         elif isinstance(data, (CommentedSet, set)):
-            for ele in data:
+            for ele in list(data):
                 if (hasattr(ele, "anchor")
                         and stripped_attrs == ele.anchor.value):
                     yield NodeCoords(ele, data, ele, next_translated_path,
@@ -1508,7 +1508,7 @@ class Processor:
 
             is_aoh = Nodes.node_is_aoh(data, accept_nulls=True)
             search_keys = attr == '.'
-            for lstidx, ele in enumerate(data):
+            for lstidx, ele in list(enumerate(data)):
                 matches = False
                 if search_keys:
                     # pylint: disable=locally-disabled,consider-using-ternary
@@ -1547,7 +1547,7 @@ class Processor:
                 self.logger.debug(
                     "Scanning every key's name...",
                     prefix="Processor::_get_nodes_by_search:  ")
-                for key, val in data.items():
+                for key, val in list(data.items()):
                     matches = Searches.search_matches(method, term, key)
                     if (matches and not invert) or (invert and not matches):
                         debug_matched = "one dictionary key name match yielded"
@@ -1622,7 +1622,7 @@ class Processor:
                         pathseg)
 
         elif isinstance(data, (CommentedSet, set)):
-            for ele in data:
+            for ele in list(data):
                 matches = Searches.search_matches(method, term, ele)
 
                 if (matches and not invert) or (invert and not matches):
@@ -2056,7 +2056,7 @@ class Processor:
                 return
 
             if isinstance(data, (CommentedMap, dict)):
-                for key, val in data.items():
+                for key, val in list(data.items()):
                     next_translated_path = (
                         translated_path + YAMLPath.escape_path_section(
                             key, translated_path.separator))
@@ -2073,7 +2073,7 @@ class Processor:
                             data=node_coord)
                         yield node_coord
             elif isinstance(data, (CommentedSeq, list)):
-                for idx, ele in enumerate(data):
+                for idx, ele in list(enumerate(data)):
                     next_translated_path = translated_path + "[{}]".format(idx)
                     next_ancestry = ancestry + [(data, idx)]
                     for node_coord in self._get_nodes_by_traversal(
@@ -2089,7 +2089,7 @@ class Processor:
                         yield node_coord
             elif isinstance(data, (CommentedSet, set)):
                 # Sets cannot be traversed; they cannot have complex children
-                for ele in data:
+                for ele in list(data):
                     next_translated_path = (
                         translated_path + YAMLPath.escape_path_section(
                             ele, translated_path.separator))
@@ -2141,7 +2141,7 @@ class Processor:
 
             # Then, recurse into each child to perform the same test.
             if isinstance(data, dict):
-                for key, val in data.items():
+                for key, val in list(data.items()):
                     self.logger.debug(
                         "Processor::_get_nodes_by_traversal:  Recursing into"
                         " KEY '{}' at ref '{}' for next-segment matches..."
@@ -2163,7 +2163,7 @@ class Processor:
                             data=node_coord.node)
                         yield node_coord
             elif isinstance(data, list):
-                for idx, ele in enumerate(data):
+                for idx, ele in list(enumerate(data)):
                     self.logger.debug(
                         "Processor::_get_nodes_by_traversal:  Recursing into"
                         " INDEX '{}' at ref '{}' for next-segment matches..."
@@ -2223,7 +2223,7 @@ class Processor:
             self.logger.debug(
                 "Iterating over all keys to find ANY matches in data:",
                 prefix=dbg_prefix, data=data)
-            for key, val in data.items():
+            for key, val in list(data.items()):
                 next_translated_path = (
                     translated_path + YAMLPath.escape_path_section(
                         key, translated_path.separator))
@@ -2236,7 +2236,7 @@ class Processor:
             return
 
         if isinstance(data, (CommentedSeq, list)):
-            for idx, ele in enumerate(data):
+            for idx, ele in list(enumerate(data)):
                 next_translated_path = translated_path + f"[{idx}]"
                 next_ancestry = ancestry + [(data, idx)]
                 self.logger.debug(
@@ -2247,7 +2247,7 @@ class Processor:
             return
 
         if isinstance(data, (CommentedSet, set)):
-            for ele in data:
+            for ele in list(data):
                 next_translated_path = (
                     translated_path + YAMLPath.escape_path_section(
                         ele, translated_path.separator))
@@ -2308,7 +2308,7 @@ class Processor:
             self.logger.debug(
                 "Iterating over all keys to find ANY matches in data:",
                 prefix=dbg_prefix, data=data)
-            for key, val in data.items():
+            for key, val in list(data.items()):
                 next_translated_path = (
                     translated_path + YAMLPath.escape_path_section(
                         key, translated_path.separator))
@@ -2336,7 +2336,7 @@ class Processor:
             return
 
         if isinstance(data, list):
-            for idx, ele in enumerate(data):
+            for idx, ele in list(enumerate(data)):
                 self.logger.debug(
                     f"Recursing into INDEX '{idx}' at ref '{parentref}' for"
                     " next-segment matches...", prefix=dbg_prefix)
